@@ -378,9 +378,8 @@ bool Xml::Private::parseElement(Element& element)
           return false;
         continue;
       }
-      else
-        this->pos = *pos.pos == '<' ? token.pos : pos; // text: rewind to keep its leading white space, but never to a comment that was just skipped
     }
+    this->pos = *pos.pos == '<' ? token.pos : pos; // text: rewind to keep its leading white space, but never to a comment that was just skipped
     String string;
     if(!parseText(string))
       return false;
